@@ -314,6 +314,13 @@ func (cr *chainRun) checkReply(run *caseRun, reply []byte) replyInfo {
 		// every OPT that reaches the client must still carry the TTL field it was
 		// created with: mosdns' own, the injected one, or one the upstream sent.
 		// (Only the low 24 bits: Pack rewrites the extended-rcode byte of the last OPT.)
+		sawInjected := false
+		defer func() {
+			if injected && !sawInjected {
+				// the tree dropped the stray OPT before the client: nothing left whose TTL field could be judged
+				rep.Count("injected_opt_absent_from_client_reply", 1)
+			}
+		}()
 		for _, o := range opts {
 			low := o.TTL & 0x00FFFFFF
 			ok := low == wantFlags
@@ -326,6 +333,7 @@ func (cr *chainRun) checkReply(run *caseRun, reply []byte) replyInfo {
 			}
 			if injected && low == c.Inject.ttl()&0x00FFFFFF {
 				ok = true
+				sawInjected = true
 				rep.Count("injected_opt_reached_client_with_ttl_field_intact", 1)
 			}
 			if !ok {
